@@ -157,7 +157,7 @@ fn step(w: &mut W, s: &Value) -> (String, i64) {
             }
         }
         "DelNode" => {
-            let item = DeleteNodesItem { node_id: w.nid(geti(s, "a")), delete_target_references: true };
+            let item = DeleteNodesItem { node_id: w.nid(geti(s, "a")), delete_target_references: s.get("tr").and_then(|v| v.as_bool()).unwrap_or(true) };
             let req = DeleteNodesRequest { request_header: w.c.header(), nodes_to_delete: Some(vec![item]) };
             match w.c.call1(req.into()) {
                 SupportedMessage::DeleteNodesResponse(r) => {
